@@ -3,6 +3,7 @@
 """
 
 import time
+import math
 import sys
 from xml.etree import ElementTree
 import binascii
@@ -222,18 +223,54 @@ class Real(Type):
 
     def encode(self, data):
         data = float(data)
-        exponent = 0
-
-        while abs(data) >= 10:
-            data /= 10
-            exponent += 1
-
         element = ElementTree.Element(self.name)
-        element.text = '{}E{}'.format(data, exponent)
+
+        if math.isinf(data) or math.isnan(data):
+            if math.isnan(data):
+                special = 'NOT-A-NUMBER'
+            elif data > 0:
+                special = 'PLUS-INFINITY'
+            else:
+                special = 'MINUS-INFINITY'
+
+            ElementTree.SubElement(element, special)
+
+            return element
+
+        mantissa, _, exponent = repr(data).partition('e')
+
+        if exponent:
+            # repr() already gave a mantissa below 10.
+            exponent = int(exponent)
+
+            if '.' not in mantissa:
+                mantissa += '.0'
+        else:
+            # Move the decimal point of the exact decimal text, instead
+            # of dividing the float, until the mantissa is below 10.
+            sign = '-' if mantissa.startswith('-') else ''
+            integer, fraction = mantissa.lstrip('-').split('.')
+            exponent = len(integer) - 1
+            fraction = (integer[1:] + fraction).rstrip('0') or '0'
+            mantissa = '{}{}.{}'.format(sign, integer[0], fraction)
+
+        element.text = '{}E{}'.format(mantissa, exponent)
 
         return element
 
     def decode(self, element):
+        if len(element) == 1:
+            try:
+                return {
+                    'PLUS-INFINITY': float('inf'),
+                    'MINUS-INFINITY': float('-inf'),
+                    'NOT-A-NUMBER': float('nan')
+                }[element[0].tag]
+            except KeyError:
+                raise DecodeError(
+                    "Expected a REAL value, but got '{}'.".format(
+                        element[0].tag))
+
         return float(element.text)
 
 
